@@ -527,6 +527,8 @@ def check(ctx):
     o8 = Ob('C01.8', 'K6', 'an unpaused event is re-inserted at time + now - paused_at (hence never before now)')
     obs.append(o8)
     unpause_time_form(P, o8)
+    obs.append(ctx.shared('c20', 'C20.4', 'C01.10', 'the run a user asks for ends with the clock at exactly t0 + d only if System.simulate hands that duration to '
+                          'Environment.run as it is, in one run (stages of d / n do not add up to d in floating point)'))
     return obs
 
 
